@@ -368,7 +368,13 @@ def verify_decomposed(run, tier):
                 e = sl.elem(q)
                 okc = len(calls) == n0 + 1 and calls[-1][2] is e and calls[-1][1] is strings
                 ctx.oblige(prefix + '/segment-decoded-with-the-string-index', z3.BoolVal(bool(okc)))
-            ctx.oblige(prefix + '/segments-only-with-placeholders', pc != 0)
+            # the entry may be present under a guard (an `if` whose two outcomes were merged): present only with placeholders,
+            # absent only without
+            g_ = res.d['segments'][0]
+            gz = z3.BoolVal(True) if g_ is True else g_
+            ctx.oblige(prefix + '/segments-only-with-placeholders', z3.Implies(gz, pc != 0))
+            if g_ is not True:
+                ctx.oblige(prefix + '/segments-omitted-only-without-placeholders', z3.Implies(z3.Not(gz), pc == 0))
         else:
             ctx.oblige(prefix + '/segments-omitted-only-without-placeholders', pc == 0)
         return res
